@@ -18,7 +18,7 @@ def scenarios(tier, rng):
     trees.append((False, [("bad.rs", b"\xff\xfe info!(\"x\");\n"), ("ok.rs", b"fn f(){ info!(\"x\"); }\n")]))
     trees.append((False, []))
     for structured, fs in trees:
-        for lockkind in ("absent", "valid100", "corrupt", "empty"):
+        for lockkind in ("absent", "valid100", "corrupt", "empty", "conflict"):
             for uc in (None, False):
                 if quick and rng.random() < 0.5:
                     continue
@@ -60,6 +60,9 @@ def judge(s, o, what):
         problems.append("project files differ after the run: %r" % ch[:5])
     if o.tmp_left:
         problems.append("files left in the temporary directory: %r" % o.tmp_left[:3])
+    if getattr(o, "tmp_decoys_changed", None):
+        problems.append("files that were in the temporary directory before the run were removed or changed: %r"
+                        % o.tmp_decoys_changed)
     return problems
 
 
@@ -70,8 +73,8 @@ def run(rep, tier, seed, model_ok):
     rep.cov["rule"] = ("--check runs of the real binary under the interposer (every libc call that can create, write, "
                        "rename, truncate, chmod or remove is logged for the whole process) over small-scope and generated "
                        "trees x lock {absent, valid, corrupt, empty} x cache on/off x both styles, plus failing "
-                       "configurations and interrupted runs; predicate: no mutating operation at all and an identical "
-                       "project snapshot. Non-trivial = the run scanned at least one file")
+                       "configurations and interrupted runs; the temporary directory holds old files, some named like the tool's scratch "
+                       "files; predicate: no mutating operation at all, an identical project snapshot and an untouched temporary directory. Non-trivial = the run scanned at least one file")
     obs = drv.run_all(scs)
     dist = {}
     for s, o in zip(scs, obs):
